@@ -5,15 +5,18 @@ For each read method m of PooledClient with ignore_exc=True and any Exception-cl
 returns exactly Miss(m, forwarded arguments), where Miss is *computed* by executing the real Client.m with
 _fetch_cmd answering {} (nothing found) - not written by hand; afterwards the slot is back in the pool and the failed
 socket was closed by the inner client (C09), so the client is usable.
+Client: _fetch_cmd with ignore_exc returns {} - with the connection closed and dropped - for every Exception-class failure
+after the exchange started (and never raises then); get / gets / gat / gats turn that {} into exactly the miss value.
 HashClient get / gat / gats / gets: with ignore_exc, a failing inner call, a server inside its back-off window and "no
 server left" all return exactly that same miss value, and nothing escapes (_safely_run_func by its C13 contract).
 """
 from . import poolmodel as pm
+from . import clientmodel as cm
 from . import hashmodel as hm
 
 TRUSTED = ["inner Client contract (raising exit => socket closed)", "pool contracts (C09)"]
 ASSUMPTIONS = ["inner clients are built with ignore_exc=False (proved in C16: _create_client)"]
-NOT_COVERED = ["Client's own ignore_exc path in _fetch_cmd (exchange function not yet mechanised)", "HashClient.get_many / gets_many",
+NOT_COVERED = ["get_many / gets_many of all three classes (multi-key fetch not mechanised)",
                "input errors (MemcacheIllegalInputError before any I/O) are not server or network failures"]
 BUDGET = {"quick": 30, "thorough": 120}
 FILTER_BY_PROPERTY = True
@@ -22,4 +25,6 @@ DEPENDS = ["C13"]      # _safely_run_func's contract: nothing escapes with ignor
 
 def build(E, tier):
     pm.verify_pooled_client(E, methods=pm.READS)
+    cm.verify_fetch_cmd(E, names=("get", "gets", "gat", "gats") if tier == "thorough" else ("get", "gats"))
+    cm.verify_public_fetch(E)
     hm.verify_hash_single(E)
